@@ -48,7 +48,7 @@ static void scenario() {
             case 'X': { Map::accessor a; int idf = log.begin(K_FIND, arg); bool f = map.find(a, k); log.end(idf, f ? a->second.v : -1); if (f) { hold_w(k, a->second); id = log.begin(K_ERASE, arg); r = map.erase(a); log.end(id, r); } } break;
             default: vf_fail("bad op"); } } });
     open_window_and_join(ids);
-    vf_liveness(0);
+    /* liveness stays on: the sequential phase that follows must terminate too */
     // final contents, read sequentially, are part of the history
     std::map<long, long> fin; for (auto it = map.begin(); it != map.end(); ++it) { if (fin.count(it->first)) vf_fail("key %d twice in the final table", it->first); fin[it->first] = it->second.v; }
     if (fin.size() != map.size()) vf_fail("size() %zu != number of elements %zu", map.size(), fin.size());
